@@ -261,7 +261,8 @@ class Engine:
             ctx.sample({"unit": u["name"], "text": u["text"]})
         first = True
         for chunk in core.chunks(units, 400 if not thorough else 1200):
-            self.judge(ctx, chunk, "units %s" % ("(dumped)" if first else ""), dump=first and len(chunk) <= 400, guard=thorough)
+            dump = first and len(chunk) <= 400
+            self.judge(ctx, chunk, "units%s" % (" (state graph dumped for action counts)" if dump else ""), dump=dump, guard=thorough)
             first = False
         missing = [a for a in ACTIONS + ["End"] if not ctx.cov["actions"].get("Cpp_Eval." + a)] if not thorough else []
         if missing:
